@@ -30,10 +30,12 @@ type G struct {
 	WildFloats bool
 	MaxList    int
 
-	names   []string
-	seen    map[string]bool
-	uidPool []int64
-	poolSet bool
+	names    []string
+	seen     map[string]bool
+	uidPool  []int64
+	timePool []time.Time
+	secPool  []time.Time
+	poolSet  bool
 }
 
 // NewG returns a random-mode generator.
@@ -142,6 +144,20 @@ func (g *G) initPool() {
 		return
 	}
 	g.poolSet = true
+	// optional times (timestamp, committed, update timestamps, created_at/closed_at, discussion
+	// and note dates) come from a small pool half of the time, so that coincidences between
+	// fields of one object and between objects are frequent: committed == timestamp, an
+	// update stamped like its parent, closed_at == created_at, date_closed == date_created
+	if g.R.Chance(0.6) {
+		for i, n := 0, g.R.Range(1, 3); i < n; i++ {
+			t := g.R.Time()
+			g.secPool = append(g.secPool, t)
+			if g.Nanos && g.R.Bool() {
+				t = t.Add(time.Duration(g.R.Range(1, 999_999_999)))
+			}
+			g.timePool = append(g.timePool, t)
+		}
+	}
 	if g.R.Chance(0.6) {
 		for i, n := 0, g.R.Range(1, 3); i < n; i++ {
 			g.uidPool = append(g.uidPool, g.R.Int64Range(1, 9_999_999))
@@ -198,6 +214,9 @@ func (g *G) Time() time.Time {
 	if g.Simple {
 		return time.Date(2012+g.R.Intn(8), time.Month(1+g.R.Intn(12)), 1+g.R.Intn(28), g.R.Intn(24), g.R.Intn(60), g.R.Intn(60), 0, time.UTC)
 	}
+	if len(g.timePool) > 0 && g.R.Bool() {
+		return g.timePool[g.R.Intn(len(g.timePool))]
+	}
 	if g.Nanos && g.R.Chance(0.6) {
 		switch g.R.Intn(3) {
 		case 0:
@@ -215,6 +234,9 @@ func (g *G) Time() time.Time {
 func (g *G) SecTime() time.Time {
 	if g.Simple {
 		return g.Time()
+	}
+	if len(g.secPool) > 0 && g.R.Bool() {
+		return g.secPool[g.R.Intn(len(g.secPool))]
 	}
 	return g.R.Time()
 }
@@ -893,6 +915,7 @@ func (g *G) container(prefix string, o *osm.OSM) {
 
 // Value generates a value of any kind in Kinds; the result is a pointer.
 func (g *G) Value(kind string) any {
+	g.initPool()
 	switch kind {
 	case "osm":
 		return g.OSM()
